@@ -1,94 +1,127 @@
-// C01 (+ the handle-level clauses of C04 and C06): the per-connection loop
-// VarlinkService::handle on a stream of K framed messages, for every parse outcome,
-// flag combination, target kind and method-implementation script.
+// C01 / C02 (upgrade hand-over) / C06 (containment): the per-connection loop
+// VarlinkService::handle on a stream of K framed messages.
 use super::io::{ArrR, RecW, CUR_ORD};
-use super::nde::{FvKind, MapScript};
+use super::nde::MapScript;
 use super::shared::c01::*;
 use super::shared::src_trait::{KSrc, Src};
 use super::stubs;
-use super::tagser::key_eq;
-use crate::{Call, CallTrait, ConnectionHandler, ErrorKind, Reply, VarlinkService};
+use super::tagser::pack;
+use crate::{Call, CallTrait, ConnectionHandler, ErrorKind, VarlinkService};
+use std::io::Write;
 
 pub static mut SCEN: C01 = C01 {
     k: 0,
     msgs: [Msg::blank(); KMAX],
 };
 
-pub fn install(sc: &C01, pmask: u8, fail_at: usize) {
+/// request flags of this harness instance (constants: a symbolic Option<bool> member makes the
+/// derived visitor merge Ok/Err results, after which CBMC folds nothing downstream)
+#[derive(Clone, Copy)]
+pub struct Flags {
+    pub more: Option<bool>,
+    pub oneway: Option<bool>,
+    pub upgrade: Option<bool>,
+}
+pub const NOFLAGS: Flags = Flags {
+    more: None,
+    oneway: None,
+    upgrade: None,
+};
+pub static mut FLAGS: Flags = NOFLAGS;
+
+pub fn install(sc: &C01, fail_at: usize, flags: Flags) {
     unsafe {
         SCEN = *sc;
+        FLAGS = flags;
         stubs::reset();
         stubs::N_PARSE = 0;
         let mut i = 0;
         while i < sc.k && i < KMAX {
             let m = &sc.msgs[i];
             let mut s = MapScript::empty();
-            s.flag("more", m.more);
-            s.flag("oneway", m.oneway);
-            s.flag("upgrade", m.upgrade);
+            s.flag("more", flags.more);
+            s.flag("oneway", flags.oneway);
+            s.flag("upgrade", flags.upgrade);
             s.string("method", method_of(m.target), true);
-            // the parameters value stays opaque (from_value is answered from the scenario)
-            // whether `parameters` is null/absent is a CONSTANT of the harness instance
-            // (bit i of pmask): a symbolic Option<serde_json::Value> discriminant makes
-            // Value's recursive clone/drop glue explode in CBMC (probe_m/probe_n)
-            s.opaque("parameters", true, pmask & (1 << i) == 0);
-            // concrete per harness instance: a symbolic Ok/Err merge of the parse result would
-            // turn every field of the parsed Request into an if-then-else
+            s.opaque("parameters", true, true);
+            // concrete per harness instance (see Flags)
             stubs::PARSE[i].ok = i != fail_at;
             stubs::PARSE[i].obj = s;
-            stubs::FV[i] = match m.params {
-                P_NONOBJECT => FvKind::NonObject,
-                P_IFACE_REG | P_IFACE_UNKNOWN | P_IFACE_SERVICE => {
-                    let mut n = MapScript::empty();
-                    n.string(
-                        "interface",
-                        match m.params {
-                            P_IFACE_REG => "a.b",
-                            P_IFACE_UNKNOWN => "zz",
-                            _ => "org.varlink.service",
-                        },
-                        true,
-                    );
-                    super::nde::NESTED[i] = n;
-                    FvKind::Obj(i)
-                }
-                _ => FvKind::EmptyObj,
-            };
             i += 1;
         }
     }
 }
 
-/// the method implementation of the registered interface `a.b`: runs the script the
-/// scenario holds for the request being served
-pub fn script_call(call: &mut Call) -> crate::Result<()> {
+/// ghost record of what the loop handed to the dispatcher
+pub static mut DISPATCHED: usize = 0;
+pub static mut IFACE_OK: bool = true;
+pub static mut REQUEST_OK: bool = true;
+
+/// stands for the private VarlinkService::call (table lookup + dispatch to the built-in or a
+/// registered interface), which is verified on its own by the C03 harnesses. Checks what it
+/// is given, then behaves as the scenario says: writes n reply messages, then returns Ok,
+/// returns Err, or asks for an upgrade.
+pub fn dispatch_model(_svc: &VarlinkService, iface: &str, call: &mut Call) -> crate::Result<()> {
     let m = unsafe { SCEN.msgs[CUR_ORD as usize] };
-    let mut i = 0;
-    while i < m.nops as usize && i < MAXOPS {
-        match m.ops[i] {
-            OP_CONT_ON => call.set_continues(true),
-            OP_CONT_OFF => call.set_continues(false),
-            OP_REPLY => call.reply_struct(Reply::parameters(None))?,
-            OP_REPLY_ERR => call.reply_struct(Reply::error("a.b.E", None))?,
-            OP_INVALID_PARAM => call.reply_invalid_parameter(String::new())?,
-            OP_FAIL => return Err(crate::context!(ErrorKind::Generic)),
-            _ => call.to_upgraded(),
+    unsafe {
+        DISPATCHED += 1;
+        // the interface name is the method up to its last dot
+        let want = iface_of(m.target).unwrap_or("?");
+        if !super::tagser::key_eq(iface, want) {
+            IFACE_OK = false;
         }
+        // flags, method and parameters reach the implementation unchanged
+        let ok = match call.request {
+            Some(r) => {
+                r.more == FLAGS.more
+                    && r.oneway == FLAGS.oneway
+                    && r.upgrade == FLAGS.upgrade
+                    && super::tagser::key_eq(r.method.as_ref(), method_of(m.target))
+                    && r.parameters.is_none()
+            }
+            None => false,
+        };
+        if !ok {
+            REQUEST_OK = false;
+        }
+    }
+    let mut i = 0;
+    while i < m.nreplies && i < MAXREPLIES {
+        let _ = call.writer.write_all(b"S\0");
+        let _ = call.writer.flush();
         i += 1;
     }
-    Ok(())
+    match m.outcome {
+        O_OK => Ok(()),
+        O_ERR => Err(crate::context!(ErrorKind::Generic)),
+        _ => {
+            call.to_upgraded();
+            Ok(())
+        }
+    }
 }
 
-/// stands for the private VarlinkService::call (table lookup + dispatch); that function is
-/// verified on its own by the C03 harnesses. The built-in interface is the real code.
-pub fn dispatch_model(svc: &VarlinkService, iface: &str, call: &mut Call) -> crate::Result<()> {
-    if key_eq(iface, "org.varlink.service") {
-        crate::Interface::call(svc, call)
-    } else if key_eq(iface, "a.b") {
-        script_call(call)
-    } else {
-        call.reply_interface_not_found(Some(iface.into()))
+pub static mut INF_ARG_OK: bool = true;
+
+/// stands for Call::reply_interface_not_found in the handle-level harnesses (the real function
+/// is one of the reply paths verified by C04): checks that it is given the whole method name
+/// and writes one tagged InterfaceNotFound reply.
+pub fn inf_model<'a>(call: &mut Call<'a>, arg: Option<String>) -> crate::Result<()>
+where
+    'a: 'a, // early-bound, like the impl's lifetime parameter
+{
+    let m = unsafe { SCEN.msgs[CUR_ORD as usize] };
+    let ok = match &arg {
+        Some(a) => super::tagser::key_eq(a.as_str(), method_of(m.target)),
+        None => false,
+    };
+    if !ok {
+        unsafe { INF_ARG_OK = false };
     }
+    std::mem::forget(arg);
+    let _ = call.writer.write_all(b"R-I\0");
+    let _ = call.writer.flush();
+    Ok(())
 }
 
 pub fn empty_service() -> VarlinkService {
@@ -104,24 +137,21 @@ pub fn empty_service() -> VarlinkService {
     }
 }
 
-fn check_stream<const N: usize>(k: usize, data: [u8; N], tail: &[u8], pmask: u8, fail_at: usize) {
+/// `data` holds k messages of two bytes each ('m', NUL) followed by `tail`
+fn check_stream<const N: usize>(k: usize, data: [u8; N], tail: &[u8], fail_at: usize, flags: Flags, targets: [u8; KMAX]) {
     let mut src = KSrc;
-    let sc = draw(&mut src, k);
+    let mut sc = draw(&mut src, k);
     let mut j = 0;
     while j < k {
-        let nonnull = sc.msgs[j].params != P_ABSENT && sc.msgs[j].params != P_NULL;
-        kani::assume(nonnull == (pmask & (1 << j) != 0));
+        // constants of the harness instance: whether message j parses and which loop path its
+        // method name selects; what the dispatched implementation does stays symbolic
         kani::assume(sc.msgs[j].parse_ok == (j != fail_at));
+        kani::assume(sc.msgs[j].target == targets[j]);
+        sc.msgs[j].parse_ok = j != fail_at;
+        sc.msgs[j].target = targets[j];
         j += 1;
     }
-    // the built-in GetInterfaceDescription consults the real (empty) table; the registered
-    // case is covered by the C03 harnesses
-    let mut j = 0;
-    while j < k {
-        kani::assume(!(sc.msgs[j].target == T_GETDESC && sc.msgs[j].params == P_IFACE_REG));
-        j += 1;
-    }
-    install(&sc, pmask, fail_at);
+    install(&sc, fail_at, flags);
     let svc = empty_service();
     let mut r = ArrR::<N>::new(data, N);
     let mut w = RecW::new();
@@ -129,38 +159,64 @@ fn check_stream<const N: usize>(k: usize, data: [u8; N], tail: &[u8], pmask: u8,
 
     // what the property demands
     let mut total = 0usize;
-    let mut closed_at = k;
+    let mut stop_at = k; // first request that closes or upgrades
+    let mut closes = false;
+    let mut upgrades = false;
     let mut i = 0;
     while i < k {
         let e = expect(&sc.msgs[i]);
         let mut x = 0;
-        while x < e.writes {
+        while x < e.script_replies {
             let pos = total + x;
             assert!(pos < w.writes, "P:c01.reply_missing");
-            assert!(w.ord[pos] as usize == i, "P:c01.reply_belongs_to_request_in_order");
-            assert!(w.tag[pos] == b'R' && w.nul_terminated[pos], "P:c01.reply_is_framed_reply");
-            assert!(
-                (w.tag2[pos] == b'1') == e.cont[x],
-                "P:c01.continues_flag_as_set_by_implementation"
-            );
-            assert!(w.tag3[pos] == e.err[x], "P:c01.reply_kind");
+            assert!(w.ord[pos] as usize == i && w.tag[pos] == b'S', "P:c01.reply_belongs_to_request_in_order");
             x += 1;
         }
-        total += e.writes;
-        if e.closes {
-            closed_at = i;
+        total += e.script_replies;
+        if e.iface_not_found {
+            assert!(total < w.writes, "P:c01.reply_missing");
+            assert!(w.ord[total] as usize == i, "P:c01.reply_belongs_to_request_in_order");
+            assert!(
+                w.tag[total] == b'R' && w.tag3[total] == stubs::ERR_IFACE_NOT_FOUND && w.nul_terminated[total],
+                "P:c01.method_without_interface_answered_interface_not_found"
+            );
+            total += 1;
+        }
+        if e.closes || e.upgraded {
+            stop_at = i;
+            closes = e.closes;
+            upgrades = e.upgraded;
             break;
         }
         i += 1;
     }
     assert!(w.writes == total, "P:c01.no_extra_reply");
+    assert!(unsafe { IFACE_OK }, "P:c03.interface_is_method_up_to_last_dot");
+    assert!(unsafe { INF_ARG_OK }, "P:c03.interface_not_found_names_the_method_without_dot");
+    assert!(unsafe { REQUEST_OK }, "P:c03.request_reaches_implementation_unchanged");
     let parsed = unsafe { stubs::N_PARSE };
-    if closed_at < k {
-        kani::cover!(closed_at == 1, "connection closed at the second request");
+    if closes {
         assert!(res.is_err(), "P:c01.failing_request_closes_connection");
-        assert!(parsed == closed_at + 1, "P:c01.nothing_served_after_close");
+        assert!(parsed == stop_at + 1, "P:c01.nothing_served_after_close");
+    } else if upgrades {
+        // C02: the loop stops; every byte after the upgrade request stays available, in order,
+        // exactly once: the returned buffer remainder followed by what the reader still holds
+        assert!(parsed == stop_at + 1, "P:c02.nothing_parsed_after_upgrade");
+        let after = 2 * (stop_at + 1);
+        match &res {
+            Ok((rest, up)) => {
+                assert!(up.is_some(), "P:c02.upgrade_reports_interface");
+                let unread = r.len - r.pos;
+                assert!(rest.len() + unread == N - after, "P:c02.no_byte_lost_or_duplicated_after_upgrade");
+                let mut q = 0;
+                while q < rest.len() {
+                    assert!(rest[q] == data[after + q], "P:c02.bytes_after_upgrade_in_order");
+                    q += 1;
+                }
+            }
+            Err(_) => assert!(false, "P:c02.upgrade_is_not_an_error"),
+        }
     } else {
-        kani::cover!(w.writes >= 2, "all requests served, two or more replies");
         assert!(parsed == k, "P:c01.every_buffered_request_served");
         match &res {
             Ok((t, up)) => {
@@ -175,46 +231,170 @@ fn check_stream<const N: usize>(k: usize, data: [u8; N], tail: &[u8], pmask: u8,
             Err(_) => assert!(false, "P:c01.ok_when_all_served"),
         }
     }
+    // vacuity guard: some execution gets through handle() and the whole oracle
+    kani::cover!(parsed >= 1, "handle() returned and the oracle was evaluated");
     std::mem::forget(res);
     std::mem::forget(svc);
 }
 
 macro_rules! handle_harness {
-    ($name:ident, $unwind:expr, $k:expr, $data:expr, $tail:expr, $pmask:expr, $fail:expr) => {
+    ($name:ident, $unwind:expr, $k:expr, $data:expr, $tail:expr, $fail:expr, $flags:expr, $targets:expr) => {
         #[kani::proof]
         #[kani::unwind($unwind)]
         #[kani::stub(core::slice::memchr::memchr, stubs::naive_memchr)]
-        #[kani::stub(core::slice::memchr::memrchr, stubs::naive_memrchr)]
+        #[kani::stub(core::slice::memchr::memrchr, stubs::memrchr_guarded)]
         #[kani::stub(std::io::BufReader::new, stubs::small_bufreader)]
         #[kani::stub(serde_json::to_string, stubs::to_string)]
         #[kani::stub(serde_json::to_value, stubs::to_value)]
         #[kani::stub(serde_json::from_slice, stubs::from_slice)]
-        #[kani::stub(serde_json::from_value, stubs::from_value)]
         #[kani::stub(alloc::fmt::format, stubs::format)]
         #[kani::stub(alloc::string::String::from_utf8_lossy, stubs::from_utf8_lossy)]
         #[kani::stub(std::hash::RandomState::new, stubs::fixed_random_state)]
         #[kani::stub(crate::VarlinkService::call, dispatch_model)]
-        #[kani::stub(<serde_json::Value as std::clone::Clone>::clone, stubs::value_clone_shallow)]
+        #[kani::stub(crate::Call::reply_interface_not_found, inf_model)]
         fn $name() {
-            check_stream($k, $data, $tail, $pmask, $fail);
+            check_stream($k, $data, $tail, $fail, $flags, $targets);
         }
     };
 }
 
-// <name>_p<mask>_f<i>: bit j of the mask set = message j carries non-null `parameters`;
-// message i is not valid JSON (f9: every message parses)
+// name: k<messages>_<target per message: d dispatched, n no dot, e empty>[_f<i>: message i is
+// not valid JSON][_flags: request carries flags]
 const NOFAIL: usize = 9;
-handle_harness!(c01_stream_k1_p0_f9, 8, 1, [b'm', 0, b't'], b"t", 0, NOFAIL);
-handle_harness!(c01_stream_k1_p1_f9, 8, 1, [b'm', 0, b't'], b"t", 1, NOFAIL);
-handle_harness!(c01_stream_k1_p0_f0, 8, 1, [b'm', 0, b't'], b"t", 0, 0);
-handle_harness!(c01_stream_k2_p0_f9, 8, 2, [b'm', 0, b'm', 0, b't'], b"t", 0, NOFAIL);
-handle_harness!(c01_stream_k2_p1_f9, 8, 2, [b'm', 0, b'm', 0, b't'], b"t", 1, NOFAIL);
-handle_harness!(c01_stream_k2_p2_f9, 8, 2, [b'm', 0, b'm', 0, b't'], b"t", 2, NOFAIL);
-handle_harness!(c01_stream_k2_p3_f9, 8, 2, [b'm', 0, b'm', 0, b't'], b"t", 3, NOFAIL);
-handle_harness!(c01_stream_k2_p0_f1, 8, 2, [b'm', 0, b'm', 0, b't'], b"t", 0, 1);
-handle_harness!(c01_stream_k2_p1_f1, 8, 2, [b'm', 0, b'm', 0, b't'], b"t", 1, 1);
-handle_harness!(c01_stream_k3_p0_f9, 8, 3, [b'm', 0, b'm', 0, b'm', 0], b"", 0, NOFAIL);
-handle_harness!(c01_stream_k3_p5_f9, 8, 3, [b'm', 0, b'm', 0, b'm', 0], b"", 5, NOFAIL);
-handle_harness!(c01_stream_k3_p2_f9, 8, 3, [b'm', 0, b'm', 0, b'm', 0], b"", 2, NOFAIL);
-handle_harness!(c01_stream_k3_p7_f9, 8, 3, [b'm', 0, b'm', 0, b'm', 0], b"", 7, NOFAIL);
-handle_harness!(c01_stream_k3_p3_f2, 8, 3, [b'm', 0, b'm', 0, b'm', 0], b"", 3, 2);
+const SOMEFLAGS: Flags = Flags {
+    more: Some(true),
+    oneway: Some(false),
+    upgrade: None,
+};
+const D: u8 = T_DISPATCH;
+const NO: u8 = T_NODOT;
+const E: u8 = T_EMPTY;
+const M1: [u8; 3] = [b'm', 0, b't'];
+const M2: [u8; 5] = [b'm', 0, b'm', 0, b't'];
+const M3: [u8; 6] = [b'm', 0, b'm', 0, b'm', 0];
+handle_harness!(c01_k1_d, 8, 1, M1, b"t", NOFAIL, NOFLAGS, [D, D, D]);
+handle_harness!(c01_k1_n, 8, 1, M1, b"t", NOFAIL, NOFLAGS, [NO, D, D]);
+handle_harness!(c01_k1_e, 8, 1, M1, b"t", NOFAIL, NOFLAGS, [E, D, D]);
+handle_harness!(c01_k1_d_f0, 8, 1, M1, b"t", 0, NOFLAGS, [D, D, D]);
+handle_harness!(c01_k1_d_flags, 8, 1, M1, b"t", NOFAIL, SOMEFLAGS, [D, D, D]);
+handle_harness!(c01_k2_dd, 8, 2, M2, b"t", NOFAIL, NOFLAGS, [D, D, D]);
+handle_harness!(c01_k2_nd, 8, 2, M2, b"t", NOFAIL, NOFLAGS, [NO, D, D]);
+handle_harness!(c01_k2_dn, 8, 2, M2, b"t", NOFAIL, NOFLAGS, [D, NO, D]);
+handle_harness!(c01_k2_ed, 8, 2, M2, b"t", NOFAIL, NOFLAGS, [E, D, D]);
+handle_harness!(c01_k2_nn, 8, 2, M2, b"t", NOFAIL, NOFLAGS, [NO, NO, D]);
+handle_harness!(c01_k2_dd_f1, 8, 2, M2, b"t", 1, NOFLAGS, [D, D, D]);
+handle_harness!(c01_k2_dd_f0, 8, 2, M2, b"t", 0, NOFLAGS, [D, D, D]);
+handle_harness!(c01_k3_ddd, 8, 3, M3, b"", NOFAIL, NOFLAGS, [D, D, D]);
+handle_harness!(c01_k3_dnd, 8, 3, M3, b"", NOFAIL, NOFLAGS, [D, NO, D]);
+handle_harness!(c03_split_leading_dot, 8, 1, M1, b"t", NOFAIL, NOFLAGS, [T_LEADING_DOT, D, D]);
+handle_harness!(c03_split_double_dot, 8, 1, M1, b"t", NOFAIL, NOFLAGS, [T_DOUBLE_DOT, D, D]);
+handle_harness!(c03_split_trailing_dot, 8, 1, M1, b"t", NOFAIL, NOFLAGS, [T_TRAILING_DOT, D, D]);
+handle_harness!(c03_split_service, 8, 1, M1, b"t", NOFAIL, NOFLAGS, [T_SERVICE, D, D]);
+handle_harness!(c01_k3_ddd_f2, 8, 3, M3, b"", 2, NOFLAGS, [D, D, D]);
+
+// ---- C02: framing does not depend on segmentation ---------------------------------------
+// The 5-byte stream 'm' NUL 'm' NUL 't' fed at once, and fed in two chunks cut at a constant
+// offset with the returned tail prepended to the second chunk (the documented caller
+// protocol), must produce the same replies and the same final tail.
+
+fn check_two_chunks(cut: usize) {
+    const S: [u8; 5] = M2;
+    let mut src = KSrc;
+    let mut sc = draw(&mut src, 2);
+    let mut j = 0;
+    while j < 2 {
+        kani::assume(sc.msgs[j].parse_ok && sc.msgs[j].target == T_DISPATCH && sc.msgs[j].outcome == O_OK);
+        sc.msgs[j].parse_ok = true;
+        sc.msgs[j].target = T_DISPATCH;
+        sc.msgs[j].outcome = O_OK;
+        j += 1;
+    }
+    let svc = empty_service();
+
+    // A: the whole stream at once
+    install(&sc, NOFAIL, NOFLAGS);
+    let mut ra = ArrR::<5>::new(S, 5);
+    let mut wa = RecW::new();
+    let res_a = svc.handle(&mut ra, &mut wa, None);
+
+    // B: two chunks
+    install(&sc, NOFAIL, NOFLAGS);
+    let mut wb = RecW::new();
+    let mut d1 = [0u8; 5];
+    let mut i = 0;
+    while i < cut {
+        d1[i] = S[i];
+        i += 1;
+    }
+    let mut r1 = ArrR::<5>::new(d1, cut);
+    let res_1 = svc.handle(&mut r1, &mut wb, None);
+    let mut d2 = [0u8; 10];
+    let mut n2 = 0;
+    match &res_1 {
+        Ok((t, up)) => {
+            assert!(up.is_none(), "P:c02.chunk_not_upgraded");
+            assert!(t.len() <= 5, "P:c02.tail_not_longer_than_chunk");
+            let mut q = 0;
+            while q < t.len() && q < 5 {
+                d2[n2] = t[q];
+                n2 += 1;
+                q += 1;
+            }
+        }
+        Err(_) => assert!(false, "P:c02.first_chunk_served"),
+    }
+    let mut q = cut;
+    while q < 5 {
+        d2[n2] = S[q];
+        n2 += 1;
+        q += 1;
+    }
+    let mut r2 = ArrR::<10>::new(d2, n2);
+    let res_2 = svc.handle(&mut r2, &mut wb, None);
+
+    kani::cover!(wa.writes >= 2, "two or more replies");
+    assert!(wa.writes == wb.writes, "P:c02.same_number_of_replies_for_every_segmentation");
+    let mut x = 0;
+    while x < wa.writes && x < super::io::WCAP {
+        assert!(wa.tag[x] == wb.tag[x] && wa.ord[x] == wb.ord[x], "P:c02.same_replies_in_same_order");
+        x += 1;
+    }
+    match (&res_a, &res_2) {
+        (Ok((ta, _)), Ok((tb, ub))) => {
+            assert!(ub.is_none(), "P:c02.chunk_not_upgraded");
+            assert!(ta.len() == 1 && ta[0] == b't', "P:c02.tail_is_bytes_after_last_complete_message");
+            assert!(tb.len() == 1 && tb[0] == b't', "P:c02.tail_is_bytes_after_last_complete_message");
+        }
+        _ => assert!(false, "P:c02.stream_served"),
+    }
+    std::mem::forget(res_a);
+    std::mem::forget(res_1);
+    std::mem::forget(res_2);
+    std::mem::forget(svc);
+}
+
+macro_rules! cut_harness {
+    ($name:ident, $cut:expr) => {
+        #[kani::proof]
+        #[kani::unwind(12)]
+        #[kani::stub(core::slice::memchr::memchr, stubs::naive_memchr)]
+        #[kani::stub(core::slice::memchr::memrchr, stubs::memrchr_guarded)]
+        #[kani::stub(std::io::BufReader::new, stubs::small_bufreader)]
+        #[kani::stub(serde_json::to_string, stubs::to_string)]
+        #[kani::stub(serde_json::to_value, stubs::to_value)]
+        #[kani::stub(serde_json::from_slice, stubs::from_slice)]
+        #[kani::stub(alloc::fmt::format, stubs::format)]
+        #[kani::stub(alloc::string::String::from_utf8_lossy, stubs::from_utf8_lossy)]
+        #[kani::stub(std::hash::RandomState::new, stubs::fixed_random_state)]
+        #[kani::stub(crate::VarlinkService::call, dispatch_model)]
+        fn $name() {
+            check_two_chunks($cut);
+        }
+    };
+}
+cut_harness!(c02_cut0, 0);
+cut_harness!(c02_cut1, 1);
+cut_harness!(c02_cut2, 2);
+cut_harness!(c02_cut3, 3);
+cut_harness!(c02_cut4, 4);
+cut_harness!(c02_cut5, 5);
